@@ -48,8 +48,15 @@ void __real_exit(int) __attribute__((noreturn));
 int __real_isatty(int);
 int __real_fileno(FILE*);
 char* __real_getenv(const char*);
-// optional white-box probe (seam/probe.cpp), absent for tap and btcc
-size_t btcsim_probe(char* out, size_t cap) __attribute__((weak));
+// optional white-box probe (seam/probe.cpp, one function per field group), absent for tap and btcc
+size_t btcsim_probe_core(char* out, size_t cap) __attribute__((weak));
+size_t btcsim_probe_counters(char* out, size_t cap) __attribute__((weak));
+size_t btcsim_probe_codehash(char* out, size_t cap) __attribute__((weak));
+size_t btcsim_probe_execdata(char* out, size_t cap) __attribute__((weak));
+size_t btcsim_probe_phases(char* out, size_t cap) __attribute__((weak));
+size_t btcsim_probe_hist(char* out, size_t cap) __attribute__((weak));
+size_t btcsim_probe_tce(char* out, size_t cap) __attribute__((weak));
+size_t btcsim_probe_next(char* out, size_t cap) __attribute__((weak));
 }
 
 #ifdef BTCSIM_ASAN
@@ -304,9 +311,13 @@ size_t g_user_i = 0;
 long g_readline_calls = 0;
 
 void do_probe() {
-    if (!btcsim_probe || !W.probe) return;
+    if (!btcsim_probe_core || !W.probe) return;
     static char buf[1 << 20];
-    size_t n = btcsim_probe(buf, sizeof buf);
+    typedef size_t (*probe_fn)(char*, size_t);
+    probe_fn fns[] = {btcsim_probe_core, btcsim_probe_counters, btcsim_probe_codehash, btcsim_probe_execdata,
+                      btcsim_probe_phases, btcsim_probe_hist, btcsim_probe_tce, btcsim_probe_next};
+    size_t n = 0;
+    for (probe_fn f : fns) if (f && n < sizeof buf) n += f(buf + n, sizeof buf - n);
     emit('P', buf, n);
 }
 
